@@ -5,8 +5,13 @@ import (
 	"fmt"
 	"io"
 	"net"
+	"os"
+	"reflect"
+	"runtime"
 	"runtime/debug"
 	"time"
+
+	"github.com/icon-project/goloop/common"
 
 	"verif/sim/kit"
 )
@@ -25,6 +30,8 @@ type task struct {
 	name   string
 	resume chan struct{}
 	cond   func() bool // nil = runnable; otherwise runnable iff cond()
+	lockWait bool      // cond waits for a lock of instrumented code: honoured even after abort
+	gid      uint64    // goroutine id of the task
 	done   bool
 	pval   any
 	pstack string
@@ -39,6 +46,109 @@ type sched struct {
 	maxSteps int
 	aborted  bool
 	conns    []*simconn
+	locks    map[uintptr]*simLock // mutexes of instrumented /repo code, as the scheduler sees them
+}
+
+// simLock is the scheduler's view of one sync.Mutex / sync.RWMutex of instrumented goloop code
+// (kit/instrument): a task is only released into Lock()/RLock() when the lock is free for it, so the
+// real lock never blocks, and every acquisition is a scheduling point chosen by the tape.
+type simLock struct {
+	writer  *task
+	readers map[*task]int
+}
+
+func lockKey(l any) uintptr {
+	v := reflect.ValueOf(l)
+	if v.Kind() != reflect.Ptr || v.IsNil() {
+		return 0
+	}
+	if v.Elem().Kind() == reflect.Ptr { // &x where x is itself a pointer (embedded mutex reached through a pointer receiver)
+		if v.Elem().IsNil() {
+			return 0
+		}
+		return v.Elem().Pointer()
+	}
+	return v.Pointer()
+}
+
+// acquire / release are installed as common.SimAcquireHook / SimReleaseHook for the run.
+func (s *sched) acquire(l any, mode byte, site string) {
+	t := s.cur
+	k := lockKey(l)
+	if t == nil || k == 0 {
+		return // not inside a scheduled task (set-up code on the driver)
+	}
+	if goid() != t.gid {
+		// a goroutine goloop started itself (timer callback, close handler): it is not a task of the
+		// scheduler and must not take the token; it simply uses the real lock
+		if os.Getenv("VERIF_TRACE_NONTASK") != "" {
+			fmt.Fprintf(os.Stderr, "NONTASK lock site %s\n%s\n", site, debug.Stack())
+		}
+		return
+	}
+	if s.locks == nil {
+		s.locks = map[uintptr]*simLock{}
+	}
+	lk := s.locks[k]
+	if lk == nil {
+		lk = &simLock{readers: map[*task]int{}}
+		s.locks[k] = lk
+	}
+	free := func() bool {
+		if mode == 'r' {
+			return lk.writer == nil
+		}
+		return lk.writer == nil && len(lk.readers) == 0
+	}
+	t.lockWait = true
+	s.yield(free)
+	t.lockWait = false
+	if mode == 'r' {
+		lk.readers[t]++
+	} else {
+		lk.writer = t
+	}
+	s.rc.Metric("lock_sites_scheduled", 1)
+}
+
+func (s *sched) release(l any, mode byte, site string) {
+	t := s.cur
+	k := lockKey(l)
+	if t == nil || k == 0 || s.locks == nil || goid() != t.gid {
+		return
+	}
+	lk := s.locks[k]
+	if lk == nil {
+		return
+	}
+	if mode == 'r' {
+		if lk.readers[t] > 1 {
+			lk.readers[t]--
+		} else {
+			delete(lk.readers, t)
+		}
+	} else if lk.writer == t {
+		lk.writer = nil
+	}
+}
+
+func goid() uint64 {
+	var buf [64]byte
+	n := runtime.Stack(buf[:], false)
+	var id uint64
+	for _, c := range buf[len("goroutine "):n] {
+		if c < '0' || c > '9' {
+			break
+		}
+		id = id*10 + uint64(c-'0')
+	}
+	return id
+}
+
+// installLockHooks makes the lock sites of instrumented code scheduling points of this run.
+func (s *sched) installLockHooks() func() {
+	common.SimAcquireHook, common.SimReleaseHook = s.acquire, s.release
+	return func() { common.SimAcquireHook, common.SimReleaseHook = nil, nil }
 }
 
 func newSched(rc *kit.RunCtx, maxSteps int) *sched {
@@ -49,6 +159,7 @@ func (s *sched) spawn(name string, fn func()) *task {
 	t := &task{name: name, resume: make(chan struct{})}
 	s.tasks = append(s.tasks, t)
 	go func() {
+		t.gid = goid()
 		<-t.resume
 		defer func() {
 			if r := recover(); r != nil {
@@ -94,7 +205,7 @@ func (s *sched) run() {
 				continue
 			}
 			live++
-			if t.cond == nil || t.cond() || s.aborted {
+			if t.cond == nil || t.cond() || (s.aborted && !t.lockWait) {
 				runnable = append(runnable, t)
 			}
 		}
@@ -102,6 +213,11 @@ func (s *sched) run() {
 			break
 		}
 		if len(runnable) == 0 {
+			if s.aborted {
+				// only tasks waiting for a lock held by another waiting task are left
+				s.rc.Violate("harness", "lock-wait-deadlock", "%d tasks wait for locks of instrumented code that are never released", live)
+				break
+			}
 			// every live task waits for bytes nobody will send: end of the useful part of the run
 			s.abort("quiescent")
 			continue
